@@ -2,6 +2,7 @@
 import lib.compat  # noqa
 from lib.runner import Collector, hyp_search
 from lib import dmacase as dc
+from lib import dmacore12 as dk
 from lib.fastsim import HarnessError
 
 ID = "C12"
@@ -12,7 +13,9 @@ RULE = ("case = (device: LiteDRAMDMAReader or LiteDRAMDMAWriter, fifo_depth 1..3
         "in the first 90 cycles; in 1/4 of the cases 1-3 windows with enable = 0) x (memory side: command stall schedule, strobe / response latencies up to 60, outstanding "
         "limit Q in {1,2,3,8,10,depth-1,depth,depth+1,depth+4,40}).  Non-trivial (measured in the run, not intended): reader = some cycle with the consumer not ready while "
         "(reads issued - words out) >= fifo_depth, or fifo_depth 1 with >= 2 addresses, or enable falling while reads are in flight; writer = fifo_depth 1 with >= 2 pairs, or "
-        "the producer refused only because the data FIFO is full.  distinct = distinct (device, stimulus) digests")
+        "the producer refused only because the data FIFO is full.  Plus, with fewer cases, writer + reader on two ports of the REAL core (3 controller configurations with "
+        "refresh x 6 FIFO shapes, reference DRAM at the DFI boundary): write pairs through the writer, read them back through the reader with the same consumer / enable "
+        "schedules.  distinct = distinct (device, stimulus) digests")
 ASSUMPTIONS = ["the realistic native slave (lib/native.py) only shows behaviour the real crossbar can show: one-cycle wdata.ready / rdata.valid strobes regardless of valid/ready, "
                ">= 3 / 5 cycles after acceptance, in acceptance order; Q up to 40 stands for a port spreading commands over several bank machines",
                "the AXI memory slave (lib/aximem12.py) is protocol conforming: R and B are held until ready, the k-th W beat belongs to the k-th AW; AXI addresses given to the DMA "
@@ -20,6 +23,7 @@ ASSUMPTIONS = ["the realistic native slave (lib/native.py) only shows behaviour 
                "the stream producer holds valid and payload until ready; the consumer may change ready freely",
                "enable = 0 (reader): the code documents 'flush FIFO / reservation counter when disabled', so a word that leaves the output FIFO while enable = 0 counts as output "
                "(visible as source.valid with enable = 0); the delivered + flushed words together must be the expected stream; no other effect of enable is checked",
+               "real-core round trip: the core returns the last data written to an address (C01, checked separately); lib/refdram.py is the DRAM",
                "violations are confirmed on stock migen.sim before being reported; the first case of every shard is compared cycle by cycle on both simulators"]
 
 NONTRIVIAL = {"consumer_stalled_with_full_reservation", "minimal_fifo_depth", "enable_dropped_with_reads_in_flight", "producer_refused_by_full_fifo"}
@@ -50,15 +54,38 @@ def shards(tier, seed):
                 k = (seed + idx) % len(mine)
                 mine = (mine[k:] + mine[:k])[:3]
             out.append(dict(tier=tier, seed=seed * 1000 + idx, idx=idx, devs=mine, ncases=(40 if tier == "quick" else 400),
-                            max_items=(48 if tier == "quick" else 100), long_stall=(400 if tier == "quick" else 700)))
+                            max_items=(48 if tier == "quick" else 100), long_stall=(400 if tier == "quick" else 700), core=[], core_ncases=0))
             idx += 1
+    # real-core round trips ride on the three lightest shards (AXI writer: no long consumer stalls)
+    cores = dk.configs()
+    light = [sh for sh in out if sh["devs"][0]["kind"] == "writer" and sh["devs"][0]["port"] == "axi"]
+    for j, sh in enumerate(light):
+        mine = cores[j::len(light)]
+        if tier == "quick":
+            mine = [mine[(seed + j) % len(mine)]]
+        sh["core"] = mine
+        sh["core_ncases"] = 8 if tier == "quick" else 60
     return out
 
 
 def evaluate(cfg, stim, backend=None):
+    if "core" in cfg:
+        run = dk.run_case(cfg, stim, backend or dc.default_backend())
+        fs, classes = dk.oracle(run)
+        return run, fs, classes
     run = dc.run_case(cfg, stim, backend)
     fs, classes = dc.oracle(run)
     return run, fs, classes
+
+
+def core_selftest(cfg, stim, col, ncycles=300):
+    ta, tb = [], []
+    dk.run_case(cfg, stim, backend="fast", max_cycles=ncycles, trace=ta)
+    dk.run_case(cfg, stim, backend="migen", max_cycles=ncycles, trace=tb)
+    if ta != tb:
+        bad = [i for i in range(min(len(ta), len(tb))) if ta[i] != tb[i]]
+        raise HarnessError("fastsim differs from migen.sim on %s at cycle %s" % (dk.tag(cfg), bad[:1]))
+    col.diff_cycles += len(ta)
 
 
 def _sample(cfg, stim, run):
@@ -108,6 +135,32 @@ def run_shard(sh):
                 raise HarnessError("C12 finding %s on %s does not reproduce on migen.sim" % (fs[0]["clause"], dc.tag(cfg)))
             violation = dict(case=dict(cfg=cfg, stim=stim), findings=fm, confirmed_on="migen.sim")
             break
+    for ci, cfg in enumerate(sh.get("core") or []):
+        if violation:
+            break
+        state = dict(n=0)
+
+        def tc(stim, cfg=cfg, state=state):
+            if state["n"] == 1:          # the second case (the first one Hypothesis draws is the minimal example)
+                core_selftest(cfg, stim, col)
+            state["n"] += 1
+            run, fs, classes = evaluate(cfg, stim)
+            col.case(dict(cfg=cfg, stim=stim), classes=sorted(classes) + ["real_core_roundtrip", dk.tag(cfg)], nontrivial=bool(classes & NONTRIVIAL),
+                     sample=dict(device=dk.tag(cfg), n_writes=len(stim["writes"]), n_reads=len(stim["reads"]), consumer=stim.get("consumer"), enable=stim.get("enable"),
+                                 cycles=run.cycles, max_outstanding=run.max_out, stalled_with_full_reservation_cycles=run.stall_full))
+            st_ = col.stats
+            st_["real_core_simulated_cycles"] = st_.get("real_core_simulated_cycles", 0) + run.cycles
+            st_["real_core_words_out"] = st_.get("real_core_words_out", 0) + len(run.consumed)
+            col.stat_max("max_outstanding_minus_depth", run.max_out - cfg["depth"])
+            return col.filter(fs)
+        found = hyp_search(tc, dk.stims(cfg, 24 if sh["tier"] == "quick" else 40, 300), sh["seed"] * 100 + 50 + ci, sh["core_ncases"], shrink=True)
+        if found:
+            stim, fs = found
+            _, fm, _ = evaluate(cfg, stim, backend="migen")
+            fm = col.filter(fm)
+            if not any(f["clause"] == fs[0]["clause"] for f in fm):
+                raise HarnessError("C12 finding %s on %s does not reproduce on migen.sim" % (fs[0]["clause"], dk.tag(cfg)))
+            violation = dict(case=dict(cfg=cfg, stim=stim), findings=fm, confirmed_on="migen.sim")
     return col.result(violation)
 
 
